@@ -42,7 +42,7 @@ func genCondCase(rt *rapid.T) CondCase {
 		kinds := []string{"put", "put", "activate", "activate", "delver", "del", "cond", "cond", "cond", "cond"}
 		o := dbx.GenOp(rt, c09Names, kinds, 1)
 		if o.Kind == "cond" {
-			o.Caller = rapid.IntRange(0, 1).Draw(rt, "caller")
+			o.Caller = rapid.SampledFrom([]int{0, 1, 1, 2, 2, 3, 3}).Draw(rt, "caller")
 		}
 		if o.Kind == "put" && o.Val == nil {
 			o.Val = []byte{}
@@ -98,7 +98,8 @@ func runC09(t *testing.T, c CondCase) (*h.Violation, h.Info) {
 	defer os.RemoveAll(dir)
 	su := dbx.Super()
 	low := dbx.Restricted(1, c.Rules)
-	callers := []dbx.CallerM{su, low}
+	// two tagged devices (tagged nodes have no user identity): one without any grant, one with caller 1's
+	callers := []dbx.CallerM{su, low, dbx.Restricted(2, nil), dbx.Restricted(4, c.Rules)}
 	var tgt dbx.Target
 	var sink *flakyAudit
 	tr := dbx.NewTracker()
@@ -229,7 +230,7 @@ func runC09(t *testing.T, c CondCase) (*h.Violation, h.Info) {
 
 var c09 = &h.Campaign[CondCase]{
 	Prop: "C09", Sub: "cond",
-	Rule:  "rapid: histories (1-30 calls) of put/activate/delete-version/delete by a superuser interleaved with conditional gets carrying V in {0, active, latest, latest+1, existing[i], deleted[i], 2^32-1, absolute} by an allowed or a partially allowed caller, through db.DB or HTTP handlers + setec.Client; in one case of four the audit device fails during some conditional gets (the answer may become an error, never switch to or from not-changed; the server is restarted afterwards); at every conditional get the same question is also put to a FileClient built from a secrets file rendered from the model's active set (Value or TextValue spelling) plus two hand-maintained entries without a usable version number, for which GetIfChanged(name, 0) must agree with Get(name); non-trivial = a conditional get on an existing, permitted secret after an activation back to an older version, or with V naming a deleted/never-existing version; distinct by scenario",
+	Rule:  "rapid: histories (1-30 calls) of put/activate/delete-version/delete by a superuser interleaved with conditional gets carrying V in {0, active, latest, latest+1, existing[i], deleted[i], 2^32-1, absolute} by the superuser, a partially allowed user, a tagged device without any grant and a tagged device with the same partial grant, through db.DB or HTTP handlers + setec.Client; in one case of four the audit device fails during some conditional gets (the answer may become an error, never switch to or from not-changed; the server is restarted afterwards); at every conditional get the same question is also put to a FileClient built from a secrets file rendered from the model's active set (Value or TextValue spelling) plus two hand-maintained entries without a usable version number, for which GetIfChanged(name, 0) must agree with Get(name); non-trivial = a conditional get on an existing, permitted secret after an activation back to an older version, or with V naming a deleted/never-existing version; distinct by scenario",
 	Quick: 10000, Thorough: 1500000,
 	Gen: genCondCase,
 	Run: runC09,
